@@ -510,6 +510,12 @@ Outcome run_c10(const Case &c) {
     } else if (cmd == "listen") {
       if (m.closed) { long cb = W.calls_total; pboolean r = p_socket_listen(m.s, &err); expect_not_available(i, "listen", !r, err, cb); }
       else if (m.tcp && m.bound && !m.connected && !m.connect_tried) { if (p_socket_listen(m.s, &err)) m.listening = true; else fail("listen", "listen on a bound stream socket failed: " + errstr(err)); }
+      else if (!m.tcp) {
+        // a listen that cannot succeed (datagram socket): it fails, and the socket is NOT listening afterwards - the backlog setter keeps
+        // working and the getters keep reflecting the calls made so far
+        if (p_socket_listen(m.s, &err)) fail("listen", "p_socket_listen on a datagram socket succeeded");
+        vl::stats().klass("listen_failed_on_datagram_socket");
+      }
     } else if (cmd == "accept") {
       long cb = W.calls_total, pb = W.polls;
       if (m.closed) { PSocket *r = p_socket_accept(m.s, &err); expect_not_available(i, "accept", r == NULL, err, cb); if (r) p_socket_free(r); }
